@@ -10,7 +10,8 @@ CFG = {
             "runes x all 256 masks (+ a 9-bit mask); mstr/str: own String(), case/ordering variants, random binding strings, every "
             "Key* constant x masks; xp: every chord the xterm legacy encoder expresses x kitty forms x bindings. "
             "hypa/hyp: hypotheses of self_match / cross_protocol_char_* evaluated on Go's unicode tables; xpu: character keys of other scripts "
-            "(fixed awkward list, all 27 title-case targets, 25/830 lower-without-upper, 60/3000 random) under legacy vs kitty on the real code. "
+            "(fixed awkward list, all 27 title-case targets, 25/830 lower-without-upper, 60/3000 random) under legacy vs kitty on the real code; "
+            "dec:csi-minint64: modifier / event parameters that wrap to math.MinInt64. "
             "Every line also runs the bodies extracted from key.go on this run (Gen/KeyBody.lean, interpreted) against the hand model. Distinct by op line.",
     "trusted_base": ["unicode.IsUpper/IsLower/IsLetter/IsGraphic/IsPrint/ToUpper/ToLower and simple case folding are parameters of the "
                      "model (structure Uni); theorems hold for all such functions; the harness passes Go's values per case",
@@ -26,11 +27,17 @@ CFG = {
                   "(every CSI parameter list over Z). Body tie: matches_body_eq_model (the interpreted body of Key.Matches extracted this run = "
                   "the hand model, all inputs); MatchString/String/decodeKey: extracted bodies fully recognised, pinned syntactically "
                   "(facts_*_body) and run against the hand model and the implementation on every case (0 differences required) - no "
-                  "all-inputs body theorem yet for these three. Known findings F209, F210 (cross-protocol differences for runes outside the "
-                  "hypotheses; witnesses in Witness/). Modelled not verified: unicode tables, parser.",
+                  "all-inputs body theorem yet for these three. F209 (rule 6 on runes that are their own upper case) and F210 (Shift-text work-around ignored the reported "
+                  "shifted code) are fixed in the source (2174a90, 4ca4c24): cross_protocol_char_plain now only excludes lower-case runes WITH an "
+                  "upper case of their own mapping to the key (27 title-case letters of Go's tables, not keys; Witness/F209 proves the hypothesis "
+                  "is needed), cross_protocol_char_shift has no hypothesis on ToUpper any more (Witness/F210: regression theorems). "
+                  "Round 3: cross_protocol_grapheme_plain/_shift (multi-code-point clusters), Props/C09Driver (hdom of the _checked theorems "
+                  "discharged for the driver's mkUni), Props/C09Int64 (Go's 64-bit int: int64_sub_one, decode_int64_agrees, "
+                  "decode_min_int64_mods; the driver compares the implementation with decodeKey64, MinInt64 cases in the dec stream), "
+                  "rune_conversion_wraps_32. Modelled not verified: unicode tables, parser.",
     "assumptions": ["binding strings and Key.Text are valid UTF-8 (modelled as code-point lists)",
                     "ModifierMask values are non-negative (decodeKey clamps)",
-                    "Go int modelled as Z: exact except a modifier/event CSI parameter of exactly -2^63 (int64 wrap of pm[0]-1; only reachable "
-                    "through the parser's own int64 overflow of a 19-digit parameter)"],
+                    "Go int modelled as Z; the 64-bit wrap of pm[0]-1 / EventType(ps)-1 at math.MinInt64 is modelled by decodeKey64 "
+                    "(Props/C09Int64: equal to the Z model everywhere else); CSI parameters are assumed to be int64 values (what the parser delivers)"],
     "timeout": 900,
 }
